@@ -5,7 +5,10 @@ ENTRY = dict(
          "incl. NaN/+-Inf/1e308)} with the variant rotating over Randomized/-ALPN/-NoALPN, 4 server names, 6 NextProtos settings; "
          "4 non-randomized ids (error path); the cipherSuites/defaultCipherSuitesTLS13 tables, the constants, DefaultWeights and the "
          "sequence of id.Weights.X references / FlipWeightedCoin calls in the source of generateRandomizedSpec (coin table) as drift cases; n/4 direct calls of removeRandomCiphers/removeRC4Ciphers (random lists, boundary weights) and n/16 of "
-         "shuffledCiphers. generateRandomizedSpec is called twice per input (determinism oracle); the SHAKE256 stream and the "
+         "shuffledCiphers. Each input is built TWICE from ONE ClientHelloID object (one *PRNGSeed, one *Weights, via the hook), and again "
+         "through two UClient(...,id)+BuildHandshakeState sharing the Seed pointer: both results equal, equal to each other across the "
+         "two paths, and seed / weights / id fields / NextProtos / DefaultWeights unchanged after every build (determinism + inputs-not-"
+         "mutated oracle; the seed bytes after the two builds are also a Coq-checked observable of every CGen case); the SHAKE256 stream and the "
          "HKDF-salted ALPS stream are recomputed with x/crypto and the model must reproduce the spec exactly (suites, extension "
          "order, every parameter). Distinct by (id, seed, weights, serverName, NextProtos); non-trivial when a spec was produced "
          "(helpers: list longer than 1).",
@@ -27,5 +30,6 @@ ENTRY = dict(
                "whenever the coin is flipped), the table being tied to the source text of generateRandomizedSpec by the CCoins case; "
                "math/rand Perm is a permutation for every stream, hence the cipher sort has a unique result independent of the sort "
                "algorithm (C09_sort_unique); key-share consistency refuted with real-seed witnesses and proved under the weight "
-               "conditions that pin one of the two independent coins; determinism = purity + observed twice per input.",
+               "conditions that pin one of the two independent coins; determinism = purity (C09_deterministic, C09_build_twice: the model's build hands the id back unchanged) + two builds from one id "
+               "object observed per input, seed-after = seed-before checked in Coq.",
 )
